@@ -101,7 +101,10 @@ pub fn observe(t: &mut Toks) -> String {
     let pairs: Vec<(u32, u32)> = one.iter().flat_map(|x| one.iter().map(move |y| (*x, *y))).collect();
     let first: Vec<u32> = u.iter().take(1).copied().collect();
     let mut first_absent = first.clone(); first_absent.push(ABSENT);
-    let sets: Vec<Vec<u32>> = vec![vec![], first.clone(), u.clone(), first_absent];
+    // node lists: empty, one name, all names, a name and an absent one, a name twice, all names and the first again
+    let twice: Vec<u32> = first.iter().chain(first.iter()).copied().collect();
+    let all_again: Vec<u32> = u.iter().chain(first.iter()).copied().collect();
+    let sets: Vec<Vec<u32>> = vec![vec![], first.clone(), u.clone(), first_absent, twice, all_again];
     let mut f: Vec<(String, String)> = vec![];
     let mut add = |name: &str, items: Vec<String>| f.push((name.to_string(), if items.is_empty() { ".".to_string() } else { items.join(" ") }));
     let gr: &G = &g;
